@@ -69,6 +69,7 @@ type synFilter struct {
 	actionMode int
 	flags      func(i int) []string
 	simpleLex  bool
+	family     func(i int) string // template family for the i-th grammar ("" = random)
 }
 
 // genSynJobs generates n grammars passing the filter (deterministic in rng).
@@ -76,6 +77,9 @@ func genSynJobs(rng *rand.Rand, n int, prefix string, f synFilter) []*SynJob {
 	var jobs []*SynJob
 	for tries := 0; len(jobs) < n && tries < n*60; tries++ {
 		o := gram.SynGenOpts{WithErrors: f.withErrors, Ambiguous: f.ambiguous}
+		if f.family != nil {
+			o.Family = f.family(len(jobs))
+		}
 		g := gram.GenSyntax(rng, o)
 		gram.AssignActions(rng, g, f.actionMode)
 		if f.simpleLex {
